@@ -246,7 +246,7 @@ func cmdCheck(args []string) int {
 				}
 				nativeRuns++
 				twin := rec
-				twin.Fn, twin.Setup, twin.Kind = o.def.NativeTwin, "", "panic"
+				twin.Fn, twin.Setup, twin.Kind = o.def.NativeTwin, "", "twin"
 				if okRep, _ := runNative(nativeBin, path, twin); okRep {
 					status = "engine-replayed; native twin " + o.def.NativeTwin + " reproduced"
 					reproduced++
@@ -532,6 +532,10 @@ func runNative(bin, replayPath string, rec replayRec) (bool, string) {
 		return code == 2 && (strings.Contains(s, "panic:") || strings.Contains(s, "fatal error:")), s
 	case "fuel":
 		return code == 137 || code == 124, s // killed by the watchdog: did not terminate
+	case "twin":
+		// directed native twin of a schedule-dependent finding: it demonstrates the defect by a Go
+		// panic (exit 2) or by a failing assertion (exit 3)
+		return code == 2 || code == 3, s
 	}
 	return false, s
 }
